@@ -92,7 +92,7 @@ func describe(raw string, ks []*signKey, nowNs int64) (M, bool) {
 	if !okAlg || !okKid || key == nil || !nineAlgs[alg] || !sigOK {
 		return d, false
 	}
-	if iss, ok := claims["iss"].(string); !ok || iss != issuerURL {
+	if iss, ok := claims["iss"].(string); !ok || iss != curIssuer {
 		return d, false
 	}
 	audOK := false
@@ -147,7 +147,7 @@ func cloneM(m M) M {
 func jwtCases(k *signKey, alg string, other []*signKey, now time.Time, rnd func(int) int) []jwtCase {
 	var out []jwtCase
 	hdr := M{"alg": alg, "kid": k.kid, "typ": "JWT"}
-	cl := M{"iss": issuerURL, "aud": "cid", "exp": now.Add(time.Hour).Unix(), "iat": now.Unix() - 5, "sub": "user-1", "email": "u@example.com"}
+	cl := M{"iss": curIssuer, "aud": "cid", "exp": now.Add(time.Hour).Unix(), "iat": now.Unix() - 5, "sub": "user-1", "email": "u@example.com"}
 	add := func(label string, h, c M, signKeyOverride *signKey, signAlg string) {
 		sk := k
 		if signKeyOverride != nil {
@@ -270,10 +270,18 @@ func jwtCases(k *signKey, alg string, other []*signKey, now time.Time, rnd func(
 		v := v
 		cds = append(cds, cd{fmt.Sprintf("aud=%v", v), func(c M) { c["aud"] = v }})
 	}
-	for _, v := range []string{issuerURL + "/", issuerURL + ".evil.test", "https://IDP.test", "http://idp.test", strings.TrimSuffix(issuerURL, "t"), " " + issuerURL,
+	issVariants := []string{issuerURL + "/", issuerURL + ".evil.test", "https://IDP.test", "http://idp.test", strings.TrimSuffix(issuerURL, "t"), " " + issuerURL,
 		// the issuer without its scheme, with a doubled or other-case scheme, scheme-relative, with a trailing dot, query or fragment
 		strings.TrimPrefix(issuerURL, "https://"), "https://" + issuerURL, "HTTPS://" + strings.TrimPrefix(issuerURL, "https://"), "//" + strings.TrimPrefix(issuerURL, "https://"),
-		issuerURL + ".", issuerURL + "?", issuerURL + "#", issuerURL + ":443", "https://user@" + strings.TrimPrefix(issuerURL, "https://")} {
+		issuerURL + ".", issuerURL + "?", issuerURL + "#", issuerURL + ":443", "https://user@" + strings.TrimPrefix(issuerURL, "https://")}
+	if curIssuer != issuerURL { // a provider whose discovered issuer has another form: its neighbours (one character more or less, other case, normalised forms)
+		issVariants = append(issVariants, issuerURL, curIssuer+"/", strings.TrimSuffix(curIssuer, "/"), curIssuer[:len(curIssuer)-1], strings.ToLower(curIssuer), strings.ToUpper(curIssuer),
+			strings.TrimSpace(curIssuer), curIssuer+" ", strings.TrimRight(curIssuer, "/."), strings.Replace(curIssuer, "//", "/", -1))
+	}
+	for _, v := range issVariants {
+		if v == curIssuer {
+			continue
+		}
 		v := v
 		cds = append(cds, cd{"iss=" + v, func(c M) { c["iss"] = v }})
 	}
@@ -383,6 +391,9 @@ func pubOf(k *signKey) interface{} {
 	return &k.ec.PublicKey
 }
 
+// curIssuer: the issuer the provider's discovery document announces in the current round
+var curIssuer = issuerURL
+
 func familyJwt(t *testing.T) {
 	rng := T.rng
 	synctest.Test(t, func(t *testing.T) {
@@ -392,12 +403,25 @@ func familyJwt(t *testing.T) {
 		if T.thorough() {
 			keySets = append(keySets, []string{"rsa4096", "p256a", "p256b", "rsa2048a", "rsa2048b", "rsa3072", "p384", "p521"})
 		}
+		// rounds with providers whose discovered issuer is not a bare origin (trailing slash, path, upper case, surrounding blank)
+		issuers := make([]string, len(keySets))
+		for _, iss := range []string{issuerURL + "/", issuerURL + "/realms/Main/", "HTTPS://IDP.test", issuerURL + "//", issuerURL + " "} {
+			keySets = append(keySets, []string{"p256a", "rsa2048a"})
+			issuers = append(issuers, iss)
+		}
 		for ksi, names := range keySets {
+			curIssuer = issuerURL
+			if issuers[ksi] != "" {
+				curIssuer = issuers[ksi]
+			}
 			var ks []*signKey
 			for _, n := range names {
 				ks = append(ks, K[n])
 			}
 			p := newProvider(ks...)
+			if curIssuer != issuerURL {
+				p.doc = M{"issuer": curIssuer}
+			}
 			inst := newInstance(p, &down{}, nil)
 			vsleep(time.Duration(1+rng.Intn(5))*time.Hour + time.Duration(rng.Intn(1e9))) // a `now` with a sub-second part
 			var jwks []M
@@ -408,7 +432,7 @@ func familyJwt(t *testing.T) {
 				}
 				jwks = append(jwks, M{"kid": k.kid, "fam": fam})
 			}
-			T.emit(M{"op": "jcfg", "issuer": issuerURL, "clientID": "cid", "keys": jwks})
+			T.emit(M{"op": "jcfg", "issuer": curIssuer, "clientID": "cid", "keys": jwks})
 			seen := map[string]bool{}
 			present := func(label, raw string) {
 				if seen[raw] {
@@ -464,6 +488,9 @@ func familyJwt(t *testing.T) {
 				if !T.thorough() { // quick: the key's natural algorithm plus one more
 					nat := defaultAlg(k)
 					algs = []string{nat, algs[(ki+ksi+int(T.seed))%len(algs)]}
+				}
+				if issuers[ksi] != "" {
+					algs = algs[:1]
 				}
 				var others []*signKey
 				for _, o := range ks {
